@@ -32,6 +32,8 @@ package call
 //@ ensures HasSuffix(result, "\n")
 //@ ensures old(loopCount) <= maxLoopCount ==> (forall i int :: {methodMap[funcName][i]} 0 <= i && i < len(methodMap[funcName]) ==>
 //@    HasLine(result, EL(funcName, Subst(methodMap[funcName][i], diMap))))
+// the callee that is expanded further is the one the edge names (the implementation registered for an injected interface)
+//@ assert before BuildCallChain#1 child == Subst(methodMap[funcName][#i], diMap)
 //@ loop 1 invariant loopCount >= old(loopCount) + 1
 //@ loop 1 invariant LinesEnd(arrayResult) && (#i > 0 ==> arrayResult != "")
 //@ loop 1 invariant forall j int :: {methodMap[funcName][j]} 0 <= j && j < #i ==> HasLine(arrayResult, EL(funcName, Subst(methodMap[funcName][j], diMap)))
